@@ -3,12 +3,15 @@ import ast
 import re
 
 from sa.core import AnalysisError, norm
+from sa import pat
 from sa.pat import AnyOf
 
 TECHNIQUE = ('static analysis: SQL-fragment operator check on the WHERE '
              'templates reached by user task/cycle patterns (taint to the '
-             'pattern parameter through an escaping step), guard atoms of the '
-             'flow filter and output selector')
+             'pattern parameter through an escaping step; locals followed to '
+             'their definitions per if/else alternative), guard atoms of the '
+             'flow filter and output selector, truth-table equivalence of the '
+             'if/return tree of _selector_in_outputs')
 
 CLAUSES = (
     'Decided: in CylcWorkflowDBChecker.workflow_state_query a user task/cycle '
@@ -29,21 +32,168 @@ def _consts(node):
             and isinstance(n.value, str)]
 
 
-def _escapes(c, f, var, branch, needed):
-    """Within `branch` the variable is re-assigned through an expression (or
-    a one-level helper) whose string constants mention all chars in needed."""
+def _escapes(c, val, needed):
+    """The bound value passes through an expression (or a one-level helper)
+    whose string constants mention all the characters in `needed`."""
     seen = set()
-    for n in ast.walk(branch):
-        if isinstance(n, ast.Assign) and norm(n.targets[0]) == var:
-            for s in _consts(n.value):
+    if val is None:
+        return False
+    for s in _consts(val):
+        seen.update(ch for ch in needed if ch in s)
+    for call in [x for x in ast.walk(val) if isinstance(x, ast.Call)]:
+        h = c.resolve_helper(call)
+        if h is not None:
+            for s in _consts(h.node):
                 seen.update(ch for ch in needed if ch in s)
-            for call in [x for x in ast.walk(n.value)
-                         if isinstance(x, ast.Call)]:
-                h = c.resolve_helper(call)
-                if h is not None:
-                    for s in _consts(h.node):
-                        seen.update(ch for ch in needed if ch in s)
     return seen >= set(needed)
+
+
+def _expand_val(v, i):
+    """[(tests, expr)] for a value (its element i when unpacked)."""
+    if isinstance(v, ast.IfExp):
+        a, b = _expand_val(v.body, i), _expand_val(v.orelse, i)
+        if a is None or b is None:
+            return None
+        return [([(v.test, True)] + cs, e) for cs, e in a] + [
+            ([(v.test, False)] + cs, e) for cs, e in b]
+    if i is None:
+        return [([], v)]
+    if isinstance(v, ast.Tuple) and i < len(v.elts):
+        return [([], v.elts[i])]
+    return None
+
+
+def _defs_in(s, name):
+    """Alternatives when statement s (re)defines the local; False when it
+    does not touch it; None when it does in a way that is not followed."""
+    if isinstance(s, ast.Assign):
+        for t in s.targets:
+            if isinstance(t, ast.Name) and t.id == name:
+                r = _expand_val(s.value, None)
+                # `v = f(v)`: the old value is the name itself
+                return r
+            if isinstance(t, ast.Tuple):
+                for i, e in enumerate(t.elts):
+                    if isinstance(e, ast.Name) and e.id == name:
+                        return _expand_val(s.value, i)
+        return False
+    if not any(isinstance(n, ast.Name) and n.id == name and isinstance(
+            n.ctx, ast.Store) for n in ast.walk(s)):
+        return False
+    if isinstance(s, ast.If):
+        a, b = _last_def(s.body, name), _last_def(s.orelse, name)
+        if a is None or b is None:
+            return None
+        keep = [([], ast.Name(id=name, ctx=ast.Load()))]
+        a = keep if a is False else a
+        b = keep if b is False else b
+        return [([(s.test, True)] + cs, e) for cs, e in a] + [
+            ([(s.test, False)] + cs, e) for cs, e in b]
+    return None
+
+
+def _last_def(block, name):
+    for s in reversed(block):
+        r = _defs_in(s, name)
+        if r is False:
+            continue
+        return r
+    return False
+
+
+def _alts(c, f, expr, at):
+    """[(tests, expr)]: what the expression (a local: its nearest
+    definitions before statement `at`) may be, each with the (test node,
+    polarity) pairs it is taken under; None when not followed."""
+    if not isinstance(expr, ast.Name):
+        return [([], expr)]
+    cur = c.idx.stmt_of(at)
+    while cur is not f.node and id(cur) in c.idx.parent:
+        par = c.idx.parent[id(cur)]
+        for field in ('body', 'orelse', 'finalbody'):
+            blk = getattr(par, field, None)
+            if isinstance(blk, list) and any(x is cur for x in blk):
+                i = [k for k, x in enumerate(blk) if x is cur][0]
+                r = _last_def(blk[:i], expr.id)
+                if r is not False:
+                    return r
+        cur = par
+    return [([], expr)]         # a parameter
+
+
+def _enclosing(c, f, node):
+    """(test, polarity) of the `if`s the node sits in."""
+    out = []
+    cur = c.idx.stmt_of(node)
+    while cur is not f.node and id(cur) in c.idx.parent:
+        par = c.idx.parent[id(cur)]
+        if isinstance(par, ast.If):
+            if any(x is cur for x in par.body):
+                out.append((par.test, True))
+            elif any(x is cur for x in par.orelse):
+                out.append((par.test, False))
+        cur = par
+    return out
+
+
+def _compatible(cs1, cs2):
+    return not any(t1 is t2 and p1 != p2 for t1, p1 in cs1 for t2, p2 in cs2)
+
+
+def _ret_formula(stmts):
+    """The value returned by a block of `if` / `return` statements, as one
+    expression (if t: A; rest  ->  A if t else rest); None if not of that
+    shape."""
+    if not stmts:
+        return None
+    s = stmts[0]
+    if isinstance(s, ast.Return):
+        return s.value
+    if isinstance(s, ast.If):
+        a = _ret_formula(s.body)
+        b = _ret_formula(list(s.orelse) + list(stmts[1:]))
+        if a is None or b is None:
+            return None
+        return ast.IfExp(test=s.test, body=a, orelse=b)
+    if isinstance(s, ast.Expr) and isinstance(s.value, ast.Constant):
+        return _ret_formula(stmts[1:])          # docstring
+    return None
+
+
+def _truth(c, e, atoms, env, val):
+    """Evaluate the boolean expression under the atom valuation `val`
+    (None: a leaf that is none of the atoms)."""
+    if isinstance(e, ast.Constant) and isinstance(e.value, bool):
+        return e.value
+    if isinstance(e, ast.BoolOp):
+        vs = [_truth(c, v, atoms, env, val) for v in e.values]
+        if None in vs:
+            return None
+        return all(vs) if isinstance(e.op, ast.And) else any(vs)
+    if isinstance(e, ast.UnaryOp) and isinstance(e.op, ast.Not):
+        v = _truth(c, e.operand, atoms, env, val)
+        return None if v is None else not v
+    if isinstance(e, ast.IfExp):
+        t = _truth(c, e.test, atoms, env, val)
+        if t is None:
+            return None
+        return _truth(c, e.body if t else e.orelse, atoms, env, val)
+    for k, p in enumerate(atoms):
+        if pat.match_atom_nodes(p, True, e, True, env):
+            return val[k]
+        if pat.match_atom_nodes(p, True, e, False, env):
+            return not val[k]
+    return None
+
+
+def _same_function(c, formula, atoms, expected) -> bool:
+    import itertools
+    env = c.env(formula)
+    pats = [pat.parse_pat(a)[0] for a in atoms]
+    for val in itertools.product((False, True), repeat=len(atoms)):
+        if _truth(c, formula, pats, env, val) is not expected(*val):
+            return False
+    return True
 
 
 def check(c):
@@ -52,20 +202,35 @@ def check(c):
     for p in ('task', 'cycle'):
         c.ob('C40.params', f'{q.fq} has parameter {p}', p in params,
              c.where(q.node, q), '')
-    # WHERE templates: string constants appended to the where list
+    # WHERE templates: what is appended to the where list, with the value
+    # bound to its placeholder.  A local is followed to its definition(s):
+    # `w, v = (A, B) if t else (C, D)` / if-else definitions give one
+    # alternative per arm, each with the tests it is taken under.
     apps = [n for n in c.calls(q, 'append')
             if norm(n.func.value) == 'stmt_wheres']
-    c.floor('C40.where-templates', 'stmt_wheres.append sites', len(apps), 4)
+    binds = [n for n in c.calls(q, 'append')
+             if norm(n.func.value) == 'stmt_args']
     cls = c.idx.cls('CylcWorkflowDBChecker', M)
     pragma = [s for s in _consts(cls.node)
               if re.search(r'case_sensitive_like\s*=\s*(1|true|on)', s, re.I)]
+    templates = []
     for a in apps:
-        arg = a.args[0]
-        if not (isinstance(arg, ast.Constant) and isinstance(arg.value, str)):
+        al = _alts(c, q, a.args[0], a)
+        if al is None:
             c.ob('C40.where-templates', c.key(a, q), False, c.where(a, q),
-                 'WHERE fragment is not a string literal')
+                 'WHERE fragment is not a string literal (definition of '
+                 f'{norm(a.args[0])} not followed)')
             continue
-        txt = arg.value
+        templates.extend((a, conds + _enclosing(c, q, a), e)
+                         for conds, e in al)
+    c.floor('C40.where-templates', 'WHERE templates appended',
+            len(templates), 4)
+    for a, conds, e in templates:
+        txt = c.fold(e)
+        if not isinstance(txt, str):
+            c.ob('C40.where-templates', c.key(a, q) + f' <- {norm(e)}', False,
+                 c.where(a, q), 'WHERE fragment is not a string literal')
+            continue
         m = re.match(r'\s*(\w+)\s*(==|=|!=|<>|\bis\b|\blike\b|\bglob\b|'
                      r'\bnot\s+like\b|\bregexp\b|\bmatch\b)\s*\?\s*(.*)$',
                      txt, re.I)
@@ -74,27 +239,38 @@ def check(c):
                  f'unrecognised WHERE fragment {txt!r}')
             continue
         col, op, tail = m.group(1), m.group(2).lower(), m.group(3)
-        # which variable is bound to this placeholder: the next
-        # stmt_args.append in the enclosing `if <var>:` block
-        var = None
+        # the value bound to this placeholder: the next stmt_args.append in
+        # the enclosing `if <var>:` block, in the same alternative
+        b = None
         cur = a
-        while id(cur) in c.idx.parent:
+        while id(cur) in c.idx.parent and b is None:
             cur = c.idx.parent[id(cur)]
             if isinstance(cur, ast.If):
                 for s in cur.body:
                     if isinstance(s, ast.Expr) and isinstance(
                             s.value, ast.Call) and norm(
                             s.value.func) == 'stmt_args.append':
-                        var = norm(s.value.args[0])
-                if var:
-                    break
-        branch = c.idx.parent[id(c.idx.stmt_of(a))]
+                        b = s.value
+        val = None
+        if b is not None:
+            bl = _alts(c, q, b.args[0], b) or []
+            ok_alts = [(cs, x) for cs, x in bl
+                       if _compatible(cs + _enclosing(c, q, b), conds)]
+            if len(ok_alts) == 1:
+                val = ok_alts[0][1]
+                conds = conds + ok_alts[0][0]
+        roots = sorted({n.id for n in ast.walk(val) if isinstance(
+            n, ast.Name)} & {'task', 'cycle', 'selector'}) if val is not None \
+            else []
+        var = roots[0] if len(roots) == 1 else None
         key = f'{q.fq} :: WHERE {col} {op.upper()} ? bound to {var}'
         if op in ('==', '=', 'is'):
-            c.ob('C40.exact-match', key, True, c.where(a, q),
-                 'exact, case-sensitive comparison')
+            c.ob('C40.exact-match', key, var is not None and norm(val) == var,
+                 c.where(a, q), 'exact, case-sensitive comparison with the '
+                 'user string' if var is not None and norm(val) == var else
+                 f'bound value {norm(val) if val is not None else None}')
         elif op == 'glob':
-            ok = var is not None and _escapes(c, q, var, branch, '[?')
+            ok = var is not None and _escapes(c, val, '[?')
             c.ob('C40.exact-match', key, ok, c.where(a, q),
                  'GLOB is case-sensitive; [ and ? are escaped on the way'
                  if ok else 'GLOB pattern: the characters [ and ? of the '
@@ -102,7 +278,7 @@ def check(c):
         elif op == 'like':
             esc = 'escape' in tail.lower()
             ok = esc and bool(pragma) and var is not None and _escapes(
-                c, q, var, branch, '%_')
+                c, val, '%_')
             c.ob('C40.exact-match', key, ok, c.where(a, q),
                  'LIKE with ESCAPE, escaped % and _, case_sensitive_like on'
                  if ok else
@@ -117,25 +293,24 @@ def check(c):
         if var in ('task', 'cycle') and op in ('like', 'glob'):
             # the wildcard branch is taken only for patterns containing '*'
             c.ob('C40.wildcard-branch', key + " only for patterns with '*'",
-                 isinstance(branch, ast.If) and bool(
-                     c.find(branch.test, f"'*' in {var}"))
-                 and any(s is c.idx.stmt_of(a) for s in branch.body),
+                 any(pol and c.find(t, f"'*' in {var}") for t, pol in conds),
                  c.where(a, q), '')
-            star = [n for n in ast.walk(branch) if isinstance(n, ast.Assign)
-                    and norm(n.targets[0]) == var]
             want = '%' if op == 'like' else '*'
-            ok = op == 'glob' or any(
-                f".replace('*', '{want}')" in norm(s.value) for s in star
-            ) or _escapes(c, q, var, branch, '*%')
+            ok = op == 'glob' or f".replace('*', '{want}')" in norm(val) \
+                or _escapes(c, val, '*%')
             c.ob('C40.wildcard-branch', key + ' star translation', ok,
                  c.where(a, q), '')
     # the bound values are the user's strings
-    binds = [n for n in c.calls(q, 'append')
-             if norm(n.func.value) == 'stmt_args']
-    bound = sorted(norm(b.args[0]) for b in binds)
+    bound = set()
+    plain = True
+    for b in binds:
+        for _cs, x in (_alts(c, q, b.args[0], b) or [([], b.args[0])]):
+            names = {n.id for n in ast.walk(x) if isinstance(n, ast.Name)}
+            bound |= names & set(params)
+            plain = plain and len(names & set(params)) == 1
     c.ob('C40.params', f'{q.fq} binds task, cycle, selector',
-         bound == ['cycle', 'selector', 'task'], c.where(q.node, q),
-         f'bound: {bound}')
+         plain and sorted(bound) == ['cycle', 'selector', 'task'],
+         c.where(q.node, q), f'bound: {sorted(bound)}')
     ex = c.find(q, 'self.conn.execute(stmt, stmt_args)')
     c.floor('C40.params', 'conn.execute(stmt, stmt_args)', len(ex), 1)
     # no user value is interpolated into the statement text
@@ -186,16 +361,55 @@ def check(c):
     c.ob('C40.selector', f'{q.fq} :: messages = outputs.values() for dict '
          'outputs', ok, c.where(q.node, q), '')
     so = c.func(M, 'CylcWorkflowDBChecker._selector_in_outputs')
-    rets = [n for n in ast.walk(so.node) if isinstance(n, ast.Return)]
-    pat = ("_s in _o or (_s in ('finished', 'finish') and "
-           "('succeeded' in _o or 'failed' in _o))")
-    ok = len(rets) == 1 and bool(c.find(rets[0], pat))
+    # whatever the spelling (one expression, early returns): the value is
+    #   selector in outputs or (selector is finish(ed) and
+    #                           (succeeded in outputs or failed in outputs))
+    an = [a.arg for a in so.node.args.args][-2:]
+    form = _ret_formula(so.node.body)
+    atoms = [f"'succeeded' in {an[1]}", f"'failed' in {an[1]}",
+             f"{an[0]} in ('finished', 'finish')", f'{an[0]} in {an[1]}']
+    ok = form is not None and len(an) == 2 and _same_function(
+        c, form, atoms, lambda s_, f_, fin, direct:
+        direct or (fin and (s_ or f_)))
     c.ob('C40.selector', f'{so.fq} :: selector in outputs or finish => '
          'succeeded|failed', ok, c.where(so.node, so),
-         norm(rets[0].value) if rets else '')
+         norm(form) if form is not None else 'not an if/return tree')
 
 
 VARIANTS = [
+    ('glob-unescaped', 'cylc/flow/dbstatecheck.py',
+     '                task = _glob_escape(task)\n', '', 'C40.exact-match'),
+    ('wildcard-branch-always', 'cylc/flow/dbstatecheck.py',
+     "            if '*' in cycle:", "            if cycle:",
+     'C40.wildcard-branch'),
+    ('benign-early-returns', 'cylc/flow/dbstatecheck.py',
+     '''        return selector in outputs or (
+            selector in (TASK_OUTPUT_FINISHED, "finish")
+            and (
+                TASK_OUTPUT_SUCCEEDED in outputs
+                or TASK_OUTPUT_FAILED in outputs
+            )
+        )''',
+     '''        if selector in outputs:
+            return True
+        if selector not in (TASK_OUTPUT_FINISHED, "finish"):
+            return False
+        return (TASK_OUTPUT_FAILED in outputs
+                or TASK_OUTPUT_SUCCEEDED in outputs)''', None),
+    ('early-returns-finish-any', 'cylc/flow/dbstatecheck.py',
+     '''        return selector in outputs or (
+            selector in (TASK_OUTPUT_FINISHED, "finish")
+            and (
+                TASK_OUTPUT_SUCCEEDED in outputs
+                or TASK_OUTPUT_FAILED in outputs
+            )
+        )''',
+     '''        if selector in outputs:
+            return True
+        if selector in (TASK_OUTPUT_FINISHED, "finish"):
+            return True
+        return (TASK_OUTPUT_FAILED in outputs
+                or TASK_OUTPUT_SUCCEEDED in outputs)''', 'C40.selector'),
     ('F3-regression-like', 'cylc/flow/dbstatecheck.py',
      'stmt_wheres.append("name GLOB ?")', 'stmt_wheres.append("name like ?")',
      'C40.exact-match'),
